@@ -978,44 +978,25 @@ theorem usedUris_insertAt_ns (s : Sheet) (i : Nat) (r : NsRule) : usedUris (inse
   simp only [usedUris, insertAt, collect_append, collect_cons_ns]
   rw [← collect_append, List.take_append_drop]
 
-theorem good_insert_clean {s : Sheet} {r : NsRule} {i : Nat} (h : Good s) (hstar : r.uri ≠ star)
-    (hnew : (r.pfx, r.uri) ∉ nsPairs s) (hc : (cleanNamespaces (insertAt s i (.ns r))).2 = false) :
-    Good (cleanNamespaces (insertAt s i (.ns r))).1 := by
-  have hs1 : (cleanNamespaces (insertAt s i (.ns r))).1 =
-      (insertAt s i (.ns r)).filter (keep (view (insertAt s i (.ns r)))) := by
-    have := cleanGo_ok (items := view (insertAt s i (.ns r))) (done := []) (rest := insertAt s i (.ns r)) hc
+/-- the clean-up, when it goes through, produces a consistent sheet from any sheet whose (prefix, URI) pairs are
+distinct and whose used URIs are declared by some rule -/
+theorem good_clean {s1 : Sheet} (hnd : (nsPairs s1).Nodup) (hstar : star ∉ nsUris s1)
+    (hdecl : ∀ u ∈ usedUris s1, u ∈ nsUris s1) (hc : (cleanNamespaces s1).2 = false) :
+    Good (cleanNamespaces s1).1 := by
+  have hs1 : (cleanNamespaces s1).1 = s1.filter (keep (view s1)) := by
+    have := cleanGo_ok (items := view s1) (done := []) (rest := s1) hc
     simpa [cleanNamespaces] using this
-  -- the pairs of the sheet with the new rule are distinct
-  have hnd : (nsPairs (insertAt s i (.ns r))).Nodup := by
-    rw [nsPairs_insertAt_ns]
-    have h0 : (nsPairs s).Nodup := nodup_of_nodup_map h.pfxNodup
-    rw [← nsPairs_take_drop s i] at h0 hnew
-    rw [List.nodup_append] at h0 ⊢
-    simp only [List.mem_append, not_or] at hnew
-    refine ⟨h0.1, List.nodup_cons.mpr ⟨hnew.2, h0.2.1⟩, ?_⟩
-    intro a ha b hb
-    rcases List.mem_cons.mp hb with hb | hb
-    · subst hb; intro e; subst e; exact hnew.1 ha
-    · exact h0.2.2 a ha b hb
-  have hkept_nd : ((nsPairs (insertAt s i (.ns r))).filter
-      (fun e => decide (e ∈ view (insertAt s i (.ns r))))).Nodup := hnd.sublist List.filter_sublist
-  have hkept_mem : ∀ e ∈ (nsPairs (insertAt s i (.ns r))).filter
-      (fun e => decide (e ∈ view (insertAt s i (.ns r)))), e ∈ view (insertAt s i (.ns r)) := by
+  have hkept_nd : ((nsPairs s1).filter (fun e => decide (e ∈ view s1))).Nodup := hnd.sublist List.filter_sublist
+  have hkept_mem : ∀ e ∈ (nsPairs s1).filter (fun e => decide (e ∈ view s1)), e ∈ view s1 := by
     intro e he; simpa using (List.mem_filter.mp he).2
-  have hk := viewOfPairs_keys_nodup (nsPairs (insertAt s i (.ns r)))
-  have hv := viewOfPairs_values_nodup (nsPairs (insertAt s i (.ns r)))
-  have hsub : ∀ u ∈ nsUris (cleanNamespaces (insertAt s i (.ns r))).1, u = r.uri ∨ u ∈ nsUris s := by
+  have hk := viewOfPairs_keys_nodup (nsPairs s1)
+  have hv := viewOfPairs_values_nodup (nsPairs s1)
+  have hsub : ∀ u ∈ nsUris (cleanNamespaces s1).1, u ∈ nsUris s1 := by
     intro u hu
     rw [hs1] at hu
-    simp only [nsUris, nsPairs_filter_keep, List.mem_map] at hu
+    simp only [nsUris, nsPairs_filter_keep, List.mem_map] at hu ⊢
     obtain ⟨e, he, rfl⟩ := hu
-    have := (List.mem_filter.mp he).1
-    rw [nsPairs_insertAt_ns] at this
-    simp only [List.mem_append, List.mem_cons] at this
-    rcases this with h1 | h1 | h1
-    · right; exact List.mem_map.mpr ⟨e, by rw [← nsPairs_take_drop s i]; exact List.mem_append.mpr (Or.inl h1), rfl⟩
-    · left; rw [h1]
-    · right; exact List.mem_map.mpr ⟨e, by rw [← nsPairs_take_drop s i]; exact List.mem_append.mpr (Or.inr h1), rfl⟩
+    exact ⟨e, (List.mem_filter.mp he).1, rfl⟩
   refine ⟨?_, ?_, ?_, ?_⟩
   · rw [hs1, nsPairs_filter_keep]
     apply nodup_map_of_inj_on hkept_nd
@@ -1034,30 +1015,52 @@ theorem good_insert_clean {s : Sheet} {r : NsRule} {i : Nat} (h : Good s) (hstar
     have : a.1 = b.1 := Dict.key_unique_of_values_nodup hv (k1 := a.1) (k2 := b.1) (v := a.2) h1
       (by rw [hab]; exact h2)
     exact Prod.ext this hab
-  · intro hx
-    rcases hsub _ hx with h1 | h1
-    · exact hstar h1.symm
-    · exact h.noStar h1
+  · exact fun hx => hstar (hsub _ hx)
   · intro u hu
-    have hb := cleanGo_body (view (insertAt s i (.ns r))) [] (insertAt s i (.ns r))
-    have hu1 : u ∈ usedUris (insertAt s i (.ns r)) := by
-      have e1 := collect_bodyRules itemUris (cleanNamespaces (insertAt s i (.ns r))).1
-      have e2 := collect_bodyRules itemUris (insertAt s i (.ns r))
+    have hb := cleanGo_body (view s1) [] s1
+    have hu1 : u ∈ usedUris s1 := by
+      have e1 := collect_bodyRules itemUris (cleanNamespaces s1).1
+      have e2 := collect_bodyRules itemUris s1
       simp only [cleanNamespaces, List.nil_append] at e1 hb
       simp only [usedUris, cleanNamespaces] at hu ⊢
       rw [← e1, hb, e2] at hu
       exact hu
-    have hu0 : u ∈ usedUris s := by rwa [usedUris_insertAt_ns] at hu1
-    have hd0 := h.declared u hu0
-    have hs : u ≠ star := fun e => h.noStar (e ▸ hd0)
-    apply cleanGo_keeps_used (view (insertAt s i (.ns r))) [] (insertAt s i (.ns r)) u
+    have hd0 := hdecl u hu1
+    have hs : u ≠ star := fun e => hstar (e ▸ hd0)
+    apply cleanGo_keeps_used (view s1) [] s1 u
     · simpa using usedUris_sub_usedStrs hs hu1
-    · simp only [List.nil_append, nsUris, nsPairs_insertAt_ns, List.map_append, List.map_cons, List.mem_append,
-        List.mem_cons]
-      simp only [nsUris, ← nsPairs_take_drop s i, List.map_append, List.mem_append] at hd0
-      rcases hd0 with h1 | h1
-      · exact Or.inl h1
-      · exact Or.inr (Or.inr h1)
+    · simpa using hd0
+
+theorem good_insert_clean {s : Sheet} {r : NsRule} {i : Nat} (h : Good s) (hstar : r.uri ≠ star)
+    (hnew : (r.pfx, r.uri) ∉ nsPairs s) (hc : (cleanNamespaces (insertAt s i (.ns r))).2 = false) :
+    Good (cleanNamespaces (insertAt s i (.ns r))).1 := by
+  apply good_clean _ _ _ hc
+  · rw [nsPairs_insertAt_ns]
+    have h0 : (nsPairs s).Nodup := nodup_of_nodup_map h.pfxNodup
+    rw [← nsPairs_take_drop s i] at h0 hnew
+    rw [List.nodup_append] at h0 ⊢
+    simp only [List.mem_append, not_or] at hnew
+    refine ⟨h0.1, List.nodup_cons.mpr ⟨hnew.2, h0.2.1⟩, ?_⟩
+    intro a ha b hb
+    rcases List.mem_cons.mp hb with hb | hb
+    · subst hb; intro e; subst e; exact hnew.1 ha
+    · exact h0.2.2 a ha b hb
+  · intro hx
+    simp only [nsUris, nsPairs_insertAt_ns, List.map_append, List.map_cons, List.mem_append, List.mem_cons] at hx
+    have hn := h.noStar
+    simp only [nsUris, ← nsPairs_take_drop s i, List.map_append, List.mem_append] at hn
+    rcases hx with h1 | h1 | h1
+    · exact hn (Or.inl h1)
+    · exact hstar h1.symm
+    · exact hn (Or.inr h1)
+  · intro u hu
+    rw [usedUris_insertAt_ns] at hu
+    have hd0 := h.declared u hu
+    simp only [nsUris, nsPairs_insertAt_ns, List.map_append, List.map_cons, List.mem_append, List.mem_cons]
+    simp only [nsUris, ← nsPairs_take_drop s i, List.map_append, List.mem_append] at hd0
+    rcases hd0 with h1 | h1
+    · exact Or.inl h1
+    · exact Or.inr (Or.inr h1)
 
 theorem good_insertNsAt {s : Sheet} {r : NsRule} {index : Nat} {ret : Option Nat} (h : Good s)
     (hstar : r.uri ≠ star) (hok : (insertNsAt s r index true).2 = .ok ret) : Good (insertNsAt s r index true).1 := by
@@ -1389,9 +1392,13 @@ theorem setNs_err {s : Sheet} {p u : Cps} {e : Err} (h : (setNs s p u).2 = .err 
 * a style rule object whose selectors were resolved elsewhere and refer to URIs this sheet does not declare,
 * URIs `*` and `''` in @namespace rules (the first is ignored by the used-URI scan for universal selectors,
   the second is not modelled),
-* `parse` (has its own theorem). -/
+* `parse` with a non-empty dict of namespaces, or of a text with an @variables rule (`SrcOk`, defined below
+  for the parse theorem; repeated here). -/
 def OpOk (s : Sheet) : Op → Prop
-  | .parse _ _ => False
+  | .parse init src => init = [] ∧ ∀ r ∈ src, (match r with
+      | .other .variables => False
+      | .ns _ u _ _ _ => u ≠ star
+      | _ => True)
   | .insNs _ u _ _ => u ≠ star
   | .insNsText _ u _ _ _ _ _ => u ≠ star
   | .setNs _ u => u ≠ star
@@ -1739,5 +1746,358 @@ theorem allGood_insertStyle {s : Sheet} {x : List Sel} (idx : Option Nat) (io : 
         · exact h n (List.mem_of_mem_take hn)
         · cases hn
         · exact h n (List.mem_of_mem_drop hn)
+
+
+/-! ## parsing a sheet -/
+
+/-- source rules outside the findings C15-namespace-after-variables (no @variables rule) and C15-star-uri -/
+def SrcOk : SrcRule → Prop
+  | .other .variables => False
+  | .ns _ u _ _ _ => u ≠ star
+  | _ => True
+
+structure PInv (st : PState) : Prop where
+  pfx : ((nsPairs st.rules).map (·.1)).Nodup
+  dict : ∀ p u, st.dict.get p = some u ↔ (p, u) ∈ nsPairs st.rules
+  keys : st.dict.keys.Nodup
+  early : st.expected ≤ 2 → st.rules.any Rule.isBody = false ∧ usedUris st.rules = []
+  decl : ∀ u ∈ usedUris st.rules, u ∈ nsUris st.rules
+  noStar : star ∉ nsUris st.rules
+
+theorem usedUris_append (a b : Sheet) : usedUris (a ++ b) = usedUris a ++ usedUris b := collect_append _ a b
+
+/-- appending a rule that is neither @namespace nor carries selectors -/
+theorem PInv.append_plain {st : PState} (h : PInv st) (k : OKind) (e : Nat)
+    (hb : e ≤ 2 → st.expected ≤ 2 ∧ (Rule.other k).isBody = false) :
+    PInv { st with rules := st.rules ++ [.other k], expected := e } where
+  pfx := by simpa [nsPairs_append, nsPairs] using h.pfx
+  dict := by simpa [nsPairs_append, nsPairs] using h.dict
+  keys := h.keys
+  early := by
+    intro he
+    obtain ⟨h1, h2⟩ := hb he
+    obtain ⟨h3, h4⟩ := h.early h1
+    refine ⟨by simp [List.any_append, h3, h2], ?_⟩
+    show usedUris (st.rules ++ [Rule.other k]) = []
+    rw [usedUris_append, h4]; simp [usedUris]
+  decl := by
+    intro u hu
+    have : u ∈ usedUris st.rules := by
+      have hu' : u ∈ usedUris (st.rules ++ [Rule.other k]) := hu
+      rw [usedUris_append] at hu'
+      simpa [usedUris] using hu'
+    simpa [nsUris, nsPairs_append, nsPairs] using h.decl u this
+  noStar := by simpa [nsUris, nsPairs_append, nsPairs] using h.noStar
+
+theorem PInv.same_rules {st : PState} (h : PInv st) (e : Nat) (he : e ≤ 2 → st.expected ≤ 2) :
+    PInv { st with expected := e } where
+  pfx := h.pfx
+  dict := h.dict
+  keys := h.keys
+  early := fun h2 => h.early (he h2)
+  decl := h.decl
+  noStar := h.noStar
+
+theorem usedUris_media (rs : List (List Sel)) : usedUris [.media rs] = (rs.map selsUris).flatten := by
+  simp [usedUris, collect]; rfl
+
+/-- appending a style or @media rule whose selectors were resolved against the parse-time dict -/
+theorem PInv.append_body {st : PState} (h : PInv st) (r : Rule) (hr : r.isNs = false)
+    (hu : ∀ u ∈ usedUris [r], u ∈ st.dict.values) :
+    PInv { st with rules := st.rules ++ [r], expected := 3 } where
+  pfx := by simpa [nsPairs_append, nsPairs_cons_not [] hr] using h.pfx
+  dict := by simpa [nsPairs_append, nsPairs_cons_not [] hr] using h.dict
+  keys := h.keys
+  early := by intro he; simp at he
+  decl := by
+    intro u hu'
+    simp only [usedUris_append, List.mem_append] at hu'
+    have : u ∈ nsUris st.rules := by
+      rcases hu' with h1 | h1
+      · exact h.decl u h1
+      · obtain ⟨e, he, rfl⟩ := List.mem_map.mp (hu u h1)
+        have hg : (e.1, e.2) ∈ nsPairs st.rules := by
+          apply (h.dict e.1 e.2).mp
+          exact Dict.mem_get_of_nodup h.keys he
+        exact List.mem_map.mpr ⟨e, hg, rfl⟩
+    simpa [nsUris, nsPairs_append, nsPairs_cons_not [] hr] using this
+  noStar := by simpa [nsUris, nsPairs_append, nsPairs_cons_not [] hr] using h.noStar
+
+
+theorem PInv.add_ns {st : PState} (h : PInv st) (he : st.expected ≤ 2) (n : NsRule) (hn : st.dict.get n.pfx = none)
+    (hs : n.uri ≠ star) :
+    PInv { rules := st.rules ++ [.ns n], dict := st.dict.set n.pfx n.uri, expected := 2 } where
+  pfx := by
+    simp only [nsPairs_append, nsPairs_cons_ns, nsPairs_nil, List.map_append, List.map_cons, List.map_nil]
+    rw [List.nodup_append]
+    refine ⟨h.pfx, by simp, ?_⟩
+    intro a ha b hb
+    simp only [List.mem_singleton] at hb
+    subst hb
+    intro e; subst e
+    obtain ⟨x, hx, hxa⟩ := List.mem_map.mp ha
+    have := (h.dict x.1 x.2).mpr hx
+    rw [hxa, hn] at this
+    cases this
+  dict := by
+    intro p u
+    simp only [Dict.get_set, nsPairs_append, nsPairs_cons_ns, nsPairs_nil, List.mem_append, List.mem_singleton]
+    by_cases hp : n.pfx = p
+    · subst hp
+      simp only [if_true, Option.some.injEq]
+      constructor
+      · intro e; right; rw [e]
+      · rintro (h1 | h1)
+        · have := (h.dict _ _).mpr h1; rw [hn] at this; cases this
+        · exact (Prod.mk.inj h1).2.symm
+    · simp only [hp, if_false]
+      rw [h.dict]
+      constructor
+      · exact Or.inl
+      · rintro (h1 | h1)
+        · exact h1
+        · exact absurd (Prod.mk.inj h1).1.symm hp
+  keys := Dict.keys_set_nodup h.keys
+  early := by
+    intro _
+    obtain ⟨h1, h2⟩ := h.early he
+    refine ⟨by simp [List.any_append, h1, Rule.isBody], ?_⟩
+    show usedUris (st.rules ++ [Rule.ns n]) = []
+    rw [usedUris_append, h2]; simp [usedUris]
+  decl := by
+    intro u hu
+    have hu' : u ∈ usedUris (st.rules ++ [Rule.ns n]) := hu
+    rw [usedUris_append, (h.early he).2] at hu'
+    simp [usedUris] at hu'
+  noStar := by
+    have := h.noStar
+    simp only [nsUris, nsPairs_append, nsPairs_cons_ns, nsPairs_nil, List.map_append, List.map_cons, List.map_nil,
+      List.mem_append, List.mem_singleton, not_or] at this ⊢
+    exact ⟨this, fun e => hs e.symm⟩
+
+/-- `_replaceNamespaceURI` on every rule with prefix `p` -/
+def replaceAll (p u : Cps) (rules : Sheet) : Sheet :=
+  rules.map fun r => match r with
+    | .ns n => if n.pfx = p then .ns (n.replaceUri u) else r
+    | _ => r
+
+theorem nsPairs_replaceAll (p u : Cps) (rules : Sheet) :
+    nsPairs (replaceAll p u rules) = (nsPairs rules).map fun e => if e.1 = p then (e.1, u) else e := by
+  induction rules with
+  | nil => rfl
+  | cons r t ih =>
+    cases r with
+    | ns n =>
+      simp only [replaceAll, List.map_cons] at ih ⊢
+      by_cases hp : n.pfx = p
+      · simp only [hp, if_true, nsPairs_cons_ns, List.map_cons]; rw [ih]; simp [hp, NsRule.replaceUri]
+      · simp only [hp, if_false, nsPairs_cons_ns, List.map_cons]; rw [ih]
+    | style x => simpa [replaceAll, nsPairs] using ih
+    | media x => simpa [replaceAll, nsPairs] using ih
+    | other x => simpa [replaceAll, nsPairs] using ih
+
+theorem bodyRules_replaceAll (p u : Cps) (rules : Sheet) : bodyRules (replaceAll p u rules) = bodyRules rules := by
+  induction rules with
+  | nil => rfl
+  | cons r t ih =>
+    cases r with
+    | ns n =>
+      simp only [replaceAll, List.map_cons] at ih ⊢
+      by_cases hp : n.pfx = p
+      · simpa [hp, bodyRules, Rule.isNs] using ih
+      · simpa [hp, bodyRules, Rule.isNs] using ih
+    | style x => simp only [replaceAll, List.map_cons] at ih ⊢; simp [bodyRules, Rule.isNs] at ih ⊢; exact ih
+    | media x => simp only [replaceAll, List.map_cons] at ih ⊢; simp [bodyRules, Rule.isNs] at ih ⊢; exact ih
+    | other x => simp only [replaceAll, List.map_cons] at ih ⊢; simp [bodyRules, Rule.isNs] at ih ⊢; exact ih
+
+theorem any_isBody_replaceAll (p u : Cps) (rules : Sheet) :
+    (replaceAll p u rules).any Rule.isBody = rules.any Rule.isBody := by
+  induction rules with
+  | nil => rfl
+  | cons r t ih =>
+    simp only [replaceAll, List.map_cons, List.any_cons] at ih ⊢
+    rw [ih]
+    cases r with
+    | ns n => by_cases hp : n.pfx = p <;> simp [hp, Rule.isBody]
+    | _ => rfl
+
+theorem PInv.replace_ns {st : PState} (h : PInv st) (he : st.expected ≤ 2) (p u u0 : Cps)
+    (hn : st.dict.get p = some u0) (hs : u ≠ star) :
+    PInv { rules := replaceAll p u st.rules, dict := st.dict.set p u, expected := 2 } where
+  pfx := by
+    have : ((nsPairs (replaceAll p u st.rules)).map (·.1)) = (nsPairs st.rules).map (·.1) := by
+      rw [nsPairs_replaceAll, List.map_map]
+      apply List.map_congr_left
+      intro e _
+      simp only [Function.comp]
+      split <;> rfl
+    show ((nsPairs (replaceAll p u st.rules)).map (·.1)).Nodup
+    rw [this]; exact h.pfx
+  dict := by
+    intro p' u'
+    show (st.dict.set p u).get p' = some u' ↔ (p', u') ∈ nsPairs (replaceAll p u st.rules)
+    rw [Dict.get_set, nsPairs_replaceAll]
+    simp only [List.mem_map]
+    by_cases hp : p = p'
+    · subst hp
+      simp only [if_true, Option.some.injEq]
+      constructor
+      · intro e
+        exact ⟨(p, u0), (h.dict _ _).mp hn, by simp [e]⟩
+      · rintro ⟨x, hx, hxe⟩
+        by_cases hx1 : x.1 = p
+        · simp only [hx1, if_true, Prod.mk.injEq] at hxe; exact hxe.2
+        · simp only [hx1, if_false] at hxe; exact absurd (congrArg Prod.fst hxe) hx1
+    · simp only [hp, if_false]
+      rw [h.dict]
+      constructor
+      · intro hm
+        have hne : ¬ p' = p := fun e => hp e.symm
+        exact ⟨(p', u'), hm, by simp [hne]⟩
+      · rintro ⟨x, hx, hxe⟩
+        by_cases hx1 : x.1 = p
+        · simp only [hx1, if_true, Prod.mk.injEq] at hxe; exact absurd hxe.1 hp
+        · simp only [hx1, if_false] at hxe; rw [← hxe]; exact hx
+  keys := Dict.keys_set_nodup h.keys
+  early := by
+    intro _
+    obtain ⟨h1, h2⟩ := h.early he
+    refine ⟨by show (replaceAll p u st.rules).any Rule.isBody = false; rw [any_isBody_replaceAll]; exact h1, ?_⟩
+    show usedUris (replaceAll p u st.rules) = []
+    simp only [usedUris]
+    rw [← collect_bodyRules, bodyRules_replaceAll, collect_bodyRules]
+    exact h2
+  decl := by
+    intro v hv
+    have hv' : v ∈ usedUris (replaceAll p u st.rules) := hv
+    simp only [usedUris] at hv'
+    rw [← collect_bodyRules, bodyRules_replaceAll, collect_bodyRules] at hv'
+    have := (h.early he).2
+    simp only [usedUris] at this
+    rw [this] at hv'
+    simp at hv'
+  noStar := by
+    show star ∉ nsUris (replaceAll p u st.rules)
+    simp only [nsUris, nsPairs_replaceAll, List.map_map, List.mem_map, Function.comp, not_exists, not_and]
+    intro x hx
+    have := h.noStar
+    by_cases hx1 : x.1 = p
+    · simp only [hx1, if_true]; exact fun e => hs e
+    · simp only [hx1, if_false]
+      intro e
+      exact this (List.mem_map.mpr ⟨x, hx, e⟩)
+
+
+theorem parseStyle_uris {d : Dict} {sels : List SSel} {x : List Sel} (h : parseStyle d sels = some x) :
+    ∀ u ∈ selsUris x, u ∈ d.values := by
+  unfold parseStyle at h
+  split at h
+  · simp at h
+  · cases hr : resolveSels d sels with
+    | error e => simp [hr] at h
+    | ok y => simp only [hr, Option.some.injEq] at h; subst h; exact resolveSels_uris hr
+
+theorem parseStep_inv {st : PState} {r : SrcRule} (h : PInv st) (hr : SrcOk r) : PInv (parseStep st r) := by
+  cases r with
+  | ns p u c0 c1 c2 =>
+    simp only [parseStep]
+    by_cases he : st.expected > 2
+    · simp only [he, if_true]; exact h
+    · simp only [he, if_false]
+      have he' : st.expected ≤ 2 := by omega
+      cases hd : st.dict.get p with
+      | none =>
+        simp only [if_true]
+        have hb : st.rules.any Rule.isBody = false := (h.early he').1
+        simp only [parseAppend, hb, Bool.false_eq_true, if_false]
+        exact h.add_ns he' (mkNsText p u c0 c1 c2) hd hr
+      | some u0 =>
+        have : (some u0 = none) = False := by simp
+        simp only [this, if_false]
+        exact h.replace_ns he' p u u0 hd hr
+  | style sels =>
+    simp only [parseStep]
+    cases hp : parseStyle st.dict sels with
+    | none => exact h
+    | some x =>
+      simp only [parseAppend]
+      apply h.append_body _ rfl
+      rw [usedUris_style]
+      exact parseStyle_uris hp
+  | media rs =>
+    simp only [parseStep, parseAppend]
+    apply h.append_body _ rfl
+    rw [usedUris_media]
+    intro u hu
+    obtain ⟨l, hl, hul⟩ := List.mem_flatten.mp hu
+    obtain ⟨x, hx, rfl⟩ := List.mem_map.mp hl
+    obtain ⟨sels, _, hs⟩ := List.mem_filterMap.mp hx
+    exact parseStyle_uris hs u hul
+  | other k =>
+    cases k with
+    | variables => exact absurd hr (by simp [SrcOk])
+    | charset =>
+      simp only [parseStep]
+      by_cases he : st.expected > 0
+      · simp only [he, if_true]; exact h
+      · simp only [he, if_false, parseAppend]
+        by_cases hemp : st.rules.isEmpty = true
+        · simp only [hemp, if_true]
+          have hnil : st.rules = [] := List.isEmpty_iff.mp hemp
+          have := h.append_plain .charset 1 (fun _ => ⟨by omega, rfl⟩)
+          simpa [hnil] using this
+        · simp only [hemp, Bool.false_eq_true, if_false]
+          exact h.same_rules 1 (fun _ => by omega)
+    | «import» =>
+      simp only [parseStep]
+      by_cases he : st.expected > 1
+      · simp only [he, if_true]; exact h
+      · simp only [he, if_false, parseAppend]
+        split
+        · exact h.same_rules 1 (fun _ => by omega)
+        · exact h.append_plain .import 1 (fun _ => ⟨by omega, rfl⟩)
+    | comment =>
+      simp only [parseStep, parseAppend]
+      exact h.append_plain .comment _ (fun he => ⟨by omega, rfl⟩)
+    | unknown =>
+      simp only [parseStep, parseAppend]
+      exact h.append_plain .unknown _ (fun he => ⟨by omega, rfl⟩)
+    | page =>
+      simp only [parseStep, parseAppend]
+      exact h.append_plain .page 3 (fun he => by omega)
+    | fontface =>
+      simp only [parseStep, parseAppend]
+      exact h.append_plain .fontface 3 (fun he => by omega)
+
+theorem PInv.init : PInv { rules := [], dict := [], expected := 0 } where
+  pfx := by simp
+  dict := by simp [Dict.get]
+  keys := by simp [Dict.keys]
+  early := fun _ => ⟨rfl, rfl⟩
+  decl := by simp [usedUris]
+  noStar := by simp [nsUris]
+
+theorem parseFold_inv (l : List SrcRule) (hl : ∀ r ∈ l, SrcOk r) {st : PState} (h : PInv st) :
+    PInv (l.foldl (fun st r => parseStep { st with expected := max 1 st.expected } r) st) := by
+  induction l generalizing st with
+  | nil => exact h
+  | cons r t ih =>
+    apply ih (fun x hx => hl x (List.mem_cons_of_mem _ hx))
+    apply parseStep_inv _ (hl r List.mem_cons_self)
+    exact h.same_rules _ (fun he => by omega)
+
+
+theorem good_parseSheet (src : List SrcRule) (hsrc : ∀ r ∈ src, SrcOk r) (hc : (parseSheet [] src).2 = false) :
+    Good (parseSheet [] src).1 := by
+  unfold parseSheet at hc ⊢
+  cases src with
+  | nil =>
+    simp only at hc ⊢
+    exact good_clean (by simp) (by simp [nsUris]) (by simp [usedUris]) hc
+  | cons r t =>
+    simp only at hc ⊢
+    have hinv := parseFold_inv t (fun x hx => hsrc x (List.mem_cons_of_mem _ hx))
+      (parseStep_inv PInv.init (hsrc r List.mem_cons_self))
+    exact good_clean (nodup_of_nodup_map hinv.pfx) hinv.noStar hinv.decl hc
 
 end CssVerif.Ns
